@@ -60,6 +60,10 @@ func checkOne(res *kit.Result, what string, ti kit.TypeInfo, b kit.AnyBuf, C, L,
 		res.Failf("%s: Alloc[%s]({Channels:%d Length:%d Capacity:%d}) reports %+v, want %+v", what, ti.Name, C, L, K, h, want)
 		return nil
 	}
+	if m := kit.RawMismatch(b.Raw(), want); m != "" {
+		res.Failf("%s: Alloc[%s]({Channels:%d Length:%d Capacity:%d}): %s", what, ti.Name, C, L, K, m)
+		return nil
+	}
 	if p, v := kit.Try(func() { full = b.Slice(0, K) }); p {
 		res.Failf("%s: Slice(0,%d) over the whole capacity panicked: %v", what, K, v)
 		return nil
@@ -130,6 +134,9 @@ func Check(c *Case) (res kit.Result) {
 		res.Failf("first allocation's shape changed to %+v", h)
 		return
 	}
+	if !growFirst(&res, c, ti, a, b) {
+		return
+	}
 	if c.L < c.K {
 		res.Class("lengthBelowCapacity")
 	}
@@ -140,6 +147,38 @@ func Check(c *Case) (res kit.Result) {
 		res.Class("multiChannel")
 	}
 	return
+}
+
+// growFirst: the first allocation grows beyond its capacity by an Append; the
+// second one (shape, contents) and a fresh allocation of the first one's shape
+// must not notice.
+func growFirst(res *kit.Result, c *Case, ti kit.TypeInfo, a, b kit.AnyBuf) bool {
+	hb, sb := b.Hdr(), b.Slice(0, c.K2).Snap()
+	if a.Len()%c.C != 0 {
+		return true
+	}
+	src := kit.AnyRoot(c.T, c.C, c.K-a.Hdr().Length+2)
+	if p, v := kit.Try(func() { a.Append(src) }); p {
+		res.Failf("growing the first allocation (%d ch, length %d, capacity %d) by an Append of %d frames panicked: %v", c.C, c.L, c.K, src.Hdr().Length, v)
+		return false
+	}
+	if h := b.Hdr(); h != hb {
+		res.Failf("growing the first allocation by an Append changed the second allocation from %+v to %+v", hb, h)
+		return false
+	}
+	if d := kit.DiffVals("second allocation after the first one grew", b.Slice(0, c.K2).Snap(), sb); d != "" {
+		res.Failf("%s", d)
+		return false
+	}
+	fresh := kit.AllocAny(c.T, signal.Allocator{Channels: c.C, Length: c.L, Capacity: c.K})
+	checkOne(res, "allocation of the first shape after the first allocation grew", ti, fresh, c.C, c.L, c.K)
+	if res.Fail != "" {
+		return false
+	}
+	if c.K == 0 {
+		res.Class("emptyAllocationGrewOthersUnaffected")
+	}
+	return true
 }
 
 // checkDirect: see Case.Via.
@@ -239,6 +278,9 @@ func checkDirect(c *Case, ti kit.TypeInfo) (res kit.Result) {
 			res.Failf("second allocation: sample %d reads %s after filling, want %s", i, v, want)
 			return
 		}
+	}
+	if !growFirst(&res, c, ti, a, b) {
+		return
 	}
 	res.Class("nothingSlicedBeforeFirstStore")
 	if c.L < c.K && c.Via == 1 {
